@@ -55,6 +55,7 @@ class Registry:
         self.entity_invariants = {}
         self.builders = {}          # cls -> fn(engine) -> ObjV (worlds that cannot be built by running __init__)
         self.inline_ok = set()
+        self.spawn_ghosts = []      # (generator qual, pred(eng, args) -> z3 Bool, ghost counter name): spawned-not-yet-started processes
         self.heap_invariants = []   # fn(sv) -> [(name, clause)]: invariants of the entity heap (assumed on entry, asserted on exit)  # cls -> fn(engine, st, ref) -> [z3]
 
     def contract(self, qual, **kw):
@@ -218,7 +219,13 @@ class SV:
         return self._e.heap_arr(self._s, cls, field, sort)
 
     def ghost(self, name):
+        if name not in self._s.ghost:
+            self._s.ghost[name] = z3.Int('ghost0_' + name)
         return self._s.ghost[name]
+
+    def pending(self, gname):
+        """(cnt, n) of the ghost multiset of spawned-not-yet-started processes"""
+        return self._e.pending_ghost(gname, self._s)
 
 
 class Ctx:
